@@ -17,7 +17,7 @@ CHECK = {
     "manifest": {
         "engine": "ENUM",
         "technique": "bounded-exhaustive enumeration against a reference model (size arithmetic of a length-delimited field; truth table accepted<=limit / resource_exhausted>limit)",
-        "text": "(a) expandRequestData directly and through parseTestSuites+newTestCaseLibrary for 5 request types x 8 contents x stream position x every offset in windows round 0, round each varint boundary of the padding length (2^7, 2^14, 2^21; 2^28 thorough), round the unpadded size, plus -limit-1/-limit/MinInt32/MaxInt32 and a complete sweep of all small targets: result size == limit+offset exactly with nothing but request_data changed, or an error exactly when the size model says no padding length reaches the target; plus test cases with SEVERAL directives: client-stream and bidi streams of 2 and 3 request messages, each message independently unmarked / marked and needing padding (offset 0, +1, -1) / marked and already exactly limit+offset bytes long before expansion / marked and one byte too long (8^2+8^3 assignments per type, streams of 2 also through the suite path, trailing unmarked messages also with a shorter expand_requests list): every marked request must end up at exactly limit+offset, every unmarked one unchanged, no error; plus the suite path under every other combination of suite-level directives (relies_on_message_receive_limit set / not set x mode server / client / unspecified x {none, relies_on_tls, + client certs, relies_on_connect_get, connect_version_mode require / ignore, relevant protocols / HTTP versions / compressions left empty}, 53 combinations x 5 types x 2 contents x offsets {0, +1, -1, -1000, first unreachable size, -limit-1}): expanded exactly or the suite rejected, whatever the other directives say; plus request messages with fields UNKNOWN to this build's request types (appended / in front of the known fields on the wire / inside response_definition / inside one of its headers; 6 contents x 5 types x position x offset windows, and the third message of every 3-message multi-directive stream): the expanded message minus the padding field has the same top-level wire fields (number, wire type, value bytes) as the original and is proto.Equal to it including unknown fields at every depth. (b) the real reference server with a small receive limit receives, from the real reference client, messages of encoded size limit-1/limit/limit+1 (compressible and incompressible padding) for unary, idempotent-unary (GET with the message in the URL under Connect, POST under gRPC / gRPC-Web), client-stream, half- and full-duplex bidi x 6 compressions x Connect/gRPC/gRPC-Web x HTTP/1.1/h2c x proto/JSON; and the real reference client with a receive limit of size-1/size/size+1 receives responses from the real reference server for all five stream shapes: accepted iff uncompressed size <= limit, otherwise resource_exhausted; and a plain net/http client (HTTP/1.1 and h2c) sends hand-built Connect-streaming and gRPC-Web request streams (client-stream, half-duplex bidi) of 2 and 3 messages, every message one of {a few bytes, limit-1, limit} and the last one also limit+1 (48 streams), with and without a declared Content-Length: the limit is per message, so the stream is accepted with every request echoed iff no message exceeds the limit. (c) the LIMIT as an axis (unit c19-limits): server limits 2^k-1, 2^k, 2^k+1 for k = 10, 16, 20 (all five wires x identity/gzip x unary, client-stream, idempotent-unary up to 64 KiB; plain-HTTP envelope streams [small, limit+{0,+1,-1}] with and without Content-Length) and k = 24, 25 - up to 32 MiB+1 - (one wire per limit, rotating; real client and plain-HTTP route) [thorough: also k = 7, 14, 21, 22, 23, 26 (64 MiB), 10^6, 10^7, 5*10^7, JSON up to 64 KiB], messages of limit-1 / limit / limit+1 bytes; client limits round the size of responses carrying 2^10, 2^16, 2^20 (all wires, identity/gzip, unary and server-stream) and 2^24 bytes twice (32 MiB; thorough up to 64 MiB): same truth table.",
+        "text": "(a) expandRequestData directly and through parseTestSuites+newTestCaseLibrary for 5 request types x 8 contents x stream position x every offset in windows round 0, round each varint boundary of the padding length (2^7, 2^14, 2^21; 2^28 thorough), round the unpadded size, plus -limit-1/-limit/MinInt32/MaxInt32 and a complete sweep of all small targets: result size == limit+offset exactly with nothing but request_data changed, or an error exactly when the size model says no padding length reaches the target; plus test cases with SEVERAL directives: client-stream and bidi streams of 2 and 3 request messages, each message independently unmarked / marked and needing padding (offset 0, +1, -1) / marked and already exactly limit+offset bytes long before expansion / marked and one byte too long (8^2+8^3 assignments per type, streams of 2 also through the suite path, trailing unmarked messages also with a shorter expand_requests list): every marked request must end up at exactly limit+offset, every unmarked one unchanged, no error; plus the suite path under every other combination of suite-level directives (relies_on_message_receive_limit set / not set x mode server / client / unspecified x {none, relies_on_tls, + client certs, relies_on_connect_get, connect_version_mode require / ignore, relevant protocols / HTTP versions / compressions left empty}, 53 combinations x 5 types x 2 contents x offsets {0, +1, -1, -1000, first unreachable size, -limit-1}): expanded exactly or the suite rejected, whatever the other directives say; plus request messages with fields UNKNOWN to this build's request types (appended / in front of the known fields on the wire / inside response_definition / inside one of its headers; 6 contents x 5 types x position x offset windows, and the third message of every 3-message multi-directive stream): the expanded message minus the padding field has the same top-level wire fields (number, wire type, value bytes) as the original and is proto.Equal to it including unknown fields at every depth. (b) the real reference server with a small receive limit receives, from the real reference client, messages of encoded size limit-1/limit/limit+1 (compressible and incompressible padding) for unary, idempotent-unary (GET with the message in the URL under Connect, POST under gRPC / gRPC-Web), client-stream, half- and full-duplex bidi x 6 compressions x Connect/gRPC/gRPC-Web x HTTP/1.1/h2c x proto/JSON; and the real reference client with a receive limit of size-1/size/size+1 receives responses from the real reference server for all five stream shapes: accepted iff uncompressed size <= limit, otherwise resource_exhausted; and a plain net/http client (HTTP/1.1 and h2c) sends hand-built Connect-streaming and gRPC-Web request streams (client-stream, half-duplex bidi) of 2 and 3 messages, every message one of {a few bytes, limit-1, limit} and the last one also limit+1 (48 streams), with and without a declared Content-Length: the limit is per message, so the stream is accepted with every request echoed iff no message exceeds the limit; and the same plain client calls IdempotentUnary by hand-built Connect GET (message in the URL: ?connect=v1&encoding=..&base64=1&message=..[&compression=..]) over HTTP/1.1 and h2c, uncompressed and compressed with each of the 6 compressions, proto/JSON, compressible/incompressible padding, message of limit-1 / limit / limit+1 bytes, limits 1024, 200 [thorough 128, 16384] and 204800 = the limit the runner really configures (URL of about 273 KB), against the server started from its exported entry point (run -> createServer -> newH1Server/newH2Server, so the HTTP servers' own bounds are in play): same truth table. (c) the LIMIT as an axis (unit c19-limits): server limits 2^k-1, 2^k, 2^k+1 for k = 10, 16, 20 (all five wires x identity/gzip x unary, client-stream, idempotent-unary up to 64 KiB; plain-HTTP envelope streams [small, limit+{0,+1,-1}] with and without Content-Length) and k = 24, 25 - up to 32 MiB+1 - (one wire per limit, rotating; real client and plain-HTTP route) [thorough: also k = 7, 14, 21, 22, 23, 26 (64 MiB), 10^6, 10^7, 5*10^7, JSON up to 64 KiB], messages of limit-1 / limit / limit+1 bytes; client limits round the size of responses carrying 2^10, 2^16, 2^20 (all wires, identity/gzip, unary and server-stream) and 2^24 bytes twice (32 MiB; thorough up to 64 MiB): same truth table; the axis also holds the runner's real server limit 204800 (all wires, idempotent-unary by GET included) and, for hand-built Connect GET only, 2^18-1, 2^18, 2^18+1 [thorough 2^17.., 2^19..] uncompressed (every limit whose URL stays below net/http's default 1 MB) and gzip (every limit, 32 MiB included: zeros shrink to a short URL).",
         "note": "Limit constant of the runner is fixed (200 KiB); peer limits up to 32 MiB+1 (quick) / 64 MiB+1 (thorough); in-process peers over loopback instead of OS processes; TLS and HTTP/3 not exercised; JSON sizes taken from the same codec.",
         "design_ref": "DESIGN.md §2.2, §4 C19",
     },
@@ -31,7 +31,7 @@ CHECK = {
         },
         {
             "name": "c19-sharp", "pkg": RC,
-            "harness": ["referenceclient/c19_sharp_test.go", "referenceclient/c19_limits_test.go"],
+            "harness": ["referenceclient/c19_sharp_test.go", "referenceclient/c19_limits_test.go", "referenceclient/c19_get_test.go"],
             "test": "^TestVerifC19Sharp$",
             "shards": {"quick": 16, "thorough": 16},
             "budget_s": {"quick": 60, "thorough": 500},
@@ -40,7 +40,7 @@ CHECK = {
             # the limit itself as an axis, up to 64 MiB: few shards (every big message is
             # copied a dozen times on its way through both in-process peers)
             "name": "c19-limits", "pkg": RC,
-            "harness": ["referenceclient/c19_sharp_test.go", "referenceclient/c19_limits_test.go"],
+            "harness": ["referenceclient/c19_sharp_test.go", "referenceclient/c19_limits_test.go", "referenceclient/c19_get_test.go"],
             "test": "^TestVerifC19Limits$",
             "shards": {"quick": 8, "thorough": 4},
             "budget_s": {"quick": 60, "thorough": 500},
